@@ -377,7 +377,85 @@ def rule_d(chk: Check, eng: Engine) -> None:
         chk.bad("R01-d", eng.relfile(mm), mm.line, mm.fq, "the symbol that is re-fuzzed is not the symbol of the replaced node", "mutation installs a subtree of another symbol", keyparts="mutation-symbol")
 
 
+KIND_ATTRS = {"is_terminal", "is_non_terminal", "is_regex"}
+KIND_CLASSES = {"Terminal", "NonTerminal", "Slice"}
+
+
+def _kind_filters(root: ast.AST) -> list[ast.AST]:
+    """Conditions (if tests, comprehension filters, loop-continue guards) that discriminate nodes by the kind of their symbol."""
+    out = []
+    conds: list[ast.AST] = []
+    for n in walk_local(root):
+        if isinstance(n, (ast.If, ast.IfExp, ast.While)):
+            conds.append(n.test)
+        elif isinstance(n, ast.comprehension):
+            conds.extend(n.ifs)
+        elif isinstance(n, ast.Call) and call_name(n) == "filter" and n.args:
+            conds.append(n.args[0])
+    for c in conds:
+        for m in ast.walk(c):
+            if isinstance(m, ast.Attribute) and m.attr in KIND_ATTRS:
+                out.append(c)
+                break
+            if isinstance(m, ast.Call) and call_name(m) == "isinstance" and len(m.args) == 2 and any(isinstance(k, ast.Name) and k.id in KIND_CLASSES for k in ast.walk(m.args[1])) \
+                    and "symbol" in norm(m.args[0]):
+                out.append(c)
+                break
+    return out
+
+
+def rule_f(chk: Check, eng: Engine) -> None:
+    """R01-f: the repetition tags (`origin_repetitions`) are the only link between a computed repetition and the nodes it
+    produced; the repair counts, extends and deletes rounds through them.  Every reader must therefore enumerate the same
+    nodes the writers tag: a reader that skips nodes by the kind of their symbol, while no writer does, miscounts rounds."""
+    TAG = "origin_repetitions"
+    writers, readers = [], []
+    for f in eng.ix.all_functions:
+        if not f.module.startswith(("fandango.language.tree", "fandango.language.grammar", "fandango.constraints.repetition_bounds")):
+            continue
+        w = r = False
+        # tags that are merely carried over to a copy (`origin_repetitions=list(x.origin_repetitions)`, `y.origin_repetitions = ...`) are not reads
+        carried: set[int] = set()
+        for n in walk_local(f.node):
+            if isinstance(n, ast.keyword) and n.arg == TAG:
+                carried |= {id(m) for m in ast.walk(n.value)}
+            if isinstance(n, ast.Assign) and any(isinstance(t, ast.Attribute) and t.attr == TAG for t in n.targets):
+                carried |= {id(m) for m in ast.walk(n.value)}
+        for n in walk_local(f.node):
+            if isinstance(n, ast.Attribute) and n.attr == TAG:
+                if isinstance(n.ctx, ast.Store):
+                    w = True
+                elif id(n) not in carried:
+                    r = True
+            if isinstance(n, ast.Call) and isinstance(n.func, ast.Attribute) and n.func.attr in ("insert", "append", "extend") and isinstance(n.func.value, ast.Attribute) and n.func.value.attr == TAG:
+                w = True
+        # constructors / copies that merely carry the tags along are neither
+        if w and f.name not in ("__init__", "__deepcopy__", "deepcopy"):
+            writers.append(f)
+        elif r and f.name not in ("__init__", "__deepcopy__", "deepcopy"):
+            readers.append(f)
+    tagging = [f for f in writers if any(isinstance(n, ast.Call) and isinstance(n.func, ast.Attribute) and n.func.attr in ("insert", "append") and isinstance(n.func.value, ast.Attribute)
+                                         and n.func.value.attr == TAG for n in walk_local(f.node))]
+    if not tagging:
+        raise AnalysisError("no function tags nodes with origin_repetitions any more")
+    if len(readers) < 3:
+        raise AnalysisError(f"only {len(readers)} reader(s) of origin_repetitions found")
+    wf = {norm(c) for f in tagging for c in _kind_filters(f.node)}
+    for f in tagging:
+        chk.ok("R01-f", f.fq, f.line, f"tags every child a repetition round adds; kind filters: {sorted(wf) or 'none'}")
+    for f in readers:
+        extra = [c for c in _kind_filters(f.node) if norm(c) not in wf]
+        if extra:
+            chk.bad("R01-f", eng.relfile(f), extra[0].lineno, f.fq, f"reads the repetition tags only of nodes with `{short(extra[0], 60)}`, but the writers tag nodes of every kind",
+                    "rounds of a computed repetition whose body is or ends in a terminal are not found or their end is misplaced: the count is never enforced, "
+                    "or new rounds are inserted inside the last round - the emitted tree is not a derivation", keyparts="reader-kind-filter|" + norm(extra[0])[:60])
+        else:
+            chk.ok("R01-f", f.fq, f.line, "reads the repetition tags of every node it visits (no filter by symbol kind)")
+
+
 def run(chk: Check, eng: Engine) -> None:
+    chk.rule("R01-f", "readers of the repetition tags enumerate the same nodes the writers tag (no filter by symbol kind on one side only)", floor=4)
+    rule_f(chk, eng)
     chk.rule("R01-a", "foreign subtrees are installed only behind path-match and same-symbol and not-read-only", floor=4)
     chk.rule("R01-b", "every grammar-deviating statement of a fuzz() method is control-dependent on a settings switch whose default is falsy", floor=10)
     chk.rule("R01-c", "repetition counts come from [min, max] (or the repair's overrides), one alternative is expanded, every concatenation element is expanded in order", floor=7)
@@ -405,6 +483,9 @@ _N = "src/fandango/language/grammar/nodes/node.py"
 _CMP = "src/fandango/constraints/comparison.py"
 _CX = "src/fandango/evolution/crossover.py"
 MUTANTS = [
+    M("tag-reader-skips-terminals", _T, "                child.find_by_origin(node_id)\n                for child in [*self._children, *self._sources]\n",
+      "                child.find_by_origin(node_id)\n                for child in [*self._children, *self._sources]\n                if child.symbol.is_non_terminal\n", "R01-f"),
+    M("delete-rounds-skips-terminals", "src/fandango/constraints/repetition_bounds.py", "            if len(matching_o_nodes) == 0:\n", "            if len(matching_o_nodes) == 0 or child.symbol.is_terminal:\n", "R01-f"),
     M("insert-position-by-value", "src/fandango/constraints/repetition_bounds.py", "        index = index_by_reference(tree, self._ending_rep_tree)\n", "        index = tree.children.index(self._ending_rep_tree)\n", "R01-e"),
     M("guard-drops-symbol", _T, "            current_path in path_to_replacement\n            and self.symbol == path_to_replacement[current_path].symbol\n            and not self.read_only\n",
       "            current_path in path_to_replacement\n            and not self.read_only\n", "R01-a"),
